@@ -14,6 +14,7 @@ import (
 	"encoding/json"
 	"fmt"
 	"math/rand"
+	"net/url"
 	"os"
 	"path/filepath"
 	"regexp"
@@ -252,7 +253,10 @@ func Regions(typ string, data []byte, detachedContentLen int) (regionMap, error)
 	case "dmg":
 		k := data[len(data)-512:]
 		xo, xl := int(binary.BigEndian.Uint64(k[0xd8:])), int(binary.BigEndian.Uint64(k[0xe0:]))
-		return regionMap{"payload": {{0, xo + xl}}}, nil
+		// the trailer's fields except the reserved areas and the signature length (zeroed when the trailer is hashed into
+		// the code directory's special slot -6)
+		t := len(data) - 512
+		return regionMap{"payload": {{0, xo + xl}}, "metadata": {{t, t + 232}, {t + 296, t + 304}, {t + 352, t + 500}}}, nil
 	case "cab":
 		cb := int(binary.LittleEndian.Uint32(data[8:]))
 		coff := int(binary.LittleEndian.Uint32(data[16:]))
@@ -603,6 +607,41 @@ func TamperMain(args []string) {
 						r.Note("jar semantic mutation not applicable: %v", err)
 					}
 					os.RemoveAll(filepath.Dir(inl))
+				}
+			}
+			// semantic mutation: a repeated MANIFEST.MF section. Done on the default signature and on one whose .SF carries
+			// per-section digests only (no digest of the whole manifest)
+			if typ == "jar" {
+				for _, sectionsOnly := range []bool{false, true} {
+					src := final
+					tmpd := ""
+					if sectionsOnly {
+						tmpd, _ = os.MkdirTemp(filepath.Dir(work), "so-")
+						src = filepath.Join(tmpd, "sections-only.jar")
+						b, _ := os.ReadFile(Pkgs + info.Fixture)
+						os.WriteFile(src, b, 0600)
+						q := url.Values{}
+						q.Set("sections-only", "true")
+						if _, err := pipex.Sign(pipex.SignRequest{Cfg: rp.W.Cfg, Token: rp.W.Token, KeyName: key, SigType: info.SigType, In: src, Out: src, Digest: "sha256", Query: q}); err != nil {
+							r.Note("jar sections-only signing failed: %v", err)
+							os.RemoveAll(tmpd)
+							continue
+						}
+					}
+					if td, err := ForgeDuplicateSection(src); err == nil {
+						os.WriteFile(work, td, 0600)
+						r.Eval(true)
+						if err := verify(work, orig); err == nil {
+							r.Fail(map[string]string{"engine": "tamper", "type": "jar", "region": "duplicate-section"}, map[string]any{"key": key, "sectionsOnly": sectionsOnly},
+								"jar/%s (sections-only=%v): a member's content was replaced and a second MANIFEST.MF section of the same name with the new digest inserted before the original one (.SF and signature block untouched) and the verifier reports success", key, sectionsOnly)
+						}
+						r.Count("jar_duplicate_section", 1)
+					} else {
+						r.Note("jar duplicate-section forgery not applicable: %v", err)
+					}
+					if tmpd != "" {
+						os.RemoveAll(tmpd)
+					}
 				}
 			}
 			// semantic mutation: a member added after signing, with a correct section of its own in MANIFEST.MF
